@@ -47,7 +47,8 @@ Rounding models (u = 2^-53 unit roundoff, EPS = 2u, C = 10 safety factor):
   for arccos, /pi, *(n-1).  Exact ties may go either way.
 * poi_scale: uniform 4u|v|; Chebyshev u(2K+4) (covers both
   (x-c)*2/w and 2(x-a)/w-1); custom limits
-  u[4(|x (a'-b')| + |a b'| + |b a'|)/w + 3|v|]; all times C.
+  u[4(|x (a'-b')| + |a b'| + |b a'|)/w + 3|v| + 2 max(|a'|,|b'|)] (covers the
+  expanded formula and a' + t (b'-a')); all times C.
 * cdf_getter: y_k = linspace(1/m, 1, m)[k-1] = fl(fl((k-1) step) + fl(1/m)),
   |y_k - k/m| <= 6u -> tolerance 32 EPS (C > 10); exactly 0 below the sample
   and exactly 1 from the maximum on.
@@ -62,8 +63,10 @@ PID = 'C18'
 LEVEL = 'exploration'
 EXHAUSTIVE = False
 RULE = ('per (kind, n, box) ALL indices 0..n-1 are round-tripped, n in '
-    '{2,3,4,5,7,10,33,100,257,1000,4097} plus every n in 2..64 (thorough: '
-    'also 16385, 65537, 1000001), boxes of width 1e-6..1e6, offset/width '
+    '{2,3,4,5,7,10,33,100,257,1000,4097} plus every n in 2..300 (thorough: '
+    '20 instances per descriptor, also n = 16385, 65537, 1000001 and random '
+    'n in 301..20000); for n <= 4097 both sides of EVERY cell boundary are '
+    'probed at distances 0..1e-2 cells; boxes of width 1e-6..1e6, offset/width '
     'K <= 1e4 restricted by K n^2 2^-52 < 1e-3 (cheb) / K n 2^-52 < 1e-3 '
     '(uni), styles symmetric / zero end / integer / dyadic / offset / '
     'straddling; d = 1..4 with per-dimension options; non-trivial = '
@@ -74,20 +77,22 @@ RULE = ('per (kind, n, box) ALL indices 0..n-1 are round-tripped, n in '
     'dimensions with different sizes (flat), a sample with ties (cdf), a '
     'mismatching option (opts)')
 REQUIRED = {
-    'roundtrip': {'quick': 800, 'thorough': 8000},
-    'endpoints': {'quick': 800, 'thorough': 8000},
-    'in-box': {'quick': 800, 'thorough': 8000},
-    'int-range': {'quick': 800, 'thorough': 8000},
-    'nearest': {'quick': 800, 'thorough': 8000},
-    'clamp-outside': {'quick': 800, 'thorough': 8000},
-    'separable': 200, 'scalar-vs-vector': 200, 'single-vs-batch': 500,
-    'scale-affine': 500, 'scale-clip': 500, 'scale-dyadic-exact': 100,
-    'scale-shape': 200, 'grid-flat': 100, 'prep-opt': 100,
-    'prep-reject': 100, 'reject-public': 100, 'cdf': 100,
+    'roundtrip': {'quick': 40000, 'thorough': 800000},
+    'endpoints': {'quick': 40000, 'thorough': 800000},
+    'in-box': {'quick': 40000, 'thorough': 800000},
+    'int-range': {'quick': 40000, 'thorough': 800000},
+    'nearest': {'quick': 40000, 'thorough': 800000},
+    'clamp-outside': {'quick': 40000, 'thorough': 800000},
+    'separable': 5000, 'scalar-vs-vector': 2000, 'single-vs-batch': 5000,
+    'scale-affine': 10000, 'scale-clip': 10000, 'scale-dyadic-exact': 2000,
+    'scale-shape': 10000, 'grid-flat': 2000, 'prep-opt': 2000,
+    'prep-reject': 2000, 'reject-public': 4000, 'cdf': 2000,
 }
-REQUIRED_EVENTS = {'indices-roundtripped': {'quick': 500000,
-    'thorough': 5000000}, 'points-near-cell-boundary': 5000,
-    'grid-n4097': 20}
+REQUIRED_EVENTS = {'indices-roundtripped': {'quick': 20000000,
+    'thorough': 400000000}, 'points-near-cell-boundary': 1000000,
+    'grids-with-every-cell-boundary-probed': 40000,
+    'grid-n4097': {'quick': 3000, 'thorough': 60000},
+    'grid-n-large': {'quick': 0, 'thorough': 800}}
 ASSUMPTIONS = ['numpy longdouble has a 64-bit mantissa (arccos / affine '
     'reference positions); python fractions are exact',
     'box restriction of DESIGN.md C18: K <= 1e4, K n^2 2^-52 < 1e-3 (cheb), '
@@ -96,7 +101,9 @@ ASSUMPTIONS = ['numpy longdouble has a 64-bit mantissa (arccos / affine '
     'float or list/ndarray; numpy integer scalars as n are reported as an '
     'advisory event, not judged']
 SHARDS = {'quick': 12, 'thorough': 16}
-BUDGET_S = {'quick': 240, 'thorough': 1500}
+# caps only (idle 16 cores: quick ~ 200 CPU-s, thorough ~ 3800 CPU-s); generous
+# because the machine is shared and a truncated shard is inconclusive
+BUDGET_S = {'quick': 600, 'thorough': 3000}
 
 C = 10.
 U = EPS / 2
@@ -107,13 +114,13 @@ NS_BIG = [16385, 65537, 1000001]
 STYLES = ['sym', 'left0', 'right0', 'int', 'pow2', 'offset', 'offset',
     'offset', 'straddle', 'unit']
 CHUNK = 32768
-KF_N_LENGTH = 'poi_to_ind-n-length-unchecked'
 
 _restriction_note = """
 Chebyshev: nodes s_i = cos(i h), h = pi/(n-1).  The decision boundary next to
 node 1 is at angle h/2, i.e. at distance cos(h/2) - cos(h) ~ 0.375 h^2 =
-3.7/(n-1)^2 in s; a backward-stable evaluation perturbs s by ~ (2K+4) u.
-K n^2 2^-52 < 1e-3 gives (2K+4) u (n-1)^2 / 3.7 < 3e-4 (K >= 1/2 always).
+3.7/(n-1)^2 in s; the image of a node is off by <= (2+4K) u in s and a
+backward-stable evaluation of s adds ~ (2K+4) u.  K n^2 2^-52 < 1e-3 gives
+(6K+6) u (n-1)^2 / 3.7 < 1e-3 (K >= 1/2 always).
 For index 0 the image may be a little inside the box: angle sqrt(2 (2K+4) u)
 < 0.5 h needs (2K+4) u < 1.2/(n-1)^2, same margin.
 Uniform: spacing 1/(n-1) in t against an error ~ (K+4) u: margin >= 500.
@@ -123,43 +130,48 @@ Uniform: spacing 1/(n-1) in t against an error ~ (K+4) u: margin >= 500.
 # ---- case lists ---------------------------------------------------------------
 
 def gen_cases(seed, tier):
+    """Quick: one instance per descriptor.  Thorough: the same kind of list
+    (plus large n) with `reps` = 20 instances per descriptor (sub-seeds
+    [seed, j]) - keeps the descriptor list small in every shard."""
     q = tier == 'quick'
+    reps = 1 if q else 20
     rng = np.random.default_rng([seed, 118])
     out = []
 
     def add(fam, **kw):
-        kw.update({'fam': fam, 'seed': int(rng.integers(1 << 62))})
+        kw.update({'fam': fam, 'seed': int(rng.integers(1 << 62)),
+            'reps': kw.get('reps', reps)})
         out.append(kw)
 
-    nb = 60 if q else 700
     for n in NS:
         for kind in ('uni', 'cheb'):
-            for j in range(nb):
+            for j in range(2000):
                 add('grid1d', kind=kind, n=n, style=STYLES[j % len(STYLES)])
-    for n in range(2, 65):
+    for n in range(2, 301):         # every n, not only the design's list
         for kind in ('uni', 'cheb'):
-            for j in range(3 if q else 40):
+            for j in range(10):
                 add('grid1d', kind=kind, n=n,
                     style=STYLES[int(rng.integers(len(STYLES)))])
     if not q:
         for n in NS_BIG:
             for kind in ('uni', 'cheb'):
-                for j in range(24 if n > 100000 else 100):
-                    add('grid1d', kind=kind, n=n, style=STYLES[j % len(STYLES)])
-        for j in range(1500):
-            add('grid1d', kind=('uni', 'cheb')[j % 2],
-                n=int(rng.integers(65, 20000)),
+                for j in range(60 if n > 100000 else 400):
+                    add('grid1d', kind=kind, n=n, reps=1,
+                        style=STYLES[j % len(STYLES)])
+        for j in range(3000):
+            add('grid1d', kind=('uni', 'cheb')[j % 2], reps=2,
+                n=int(rng.integers(301, 20000)),
                 style=STYLES[int(rng.integers(len(STYLES)))])
-    for j in range(900 if q else 14000):
+    for j in range(12000):
         add('gridnd', kind=('uni', 'cheb')[j % 2], d=1 + (j // 2) % 4,
             same=bool((j // 8) % 2), big=bool(not q and j % 7 == 0))
-    for j in range(900 if q else 14000):
+    for j in range(8000):
         add('scale', d=1 + j % 4, dyadic=bool(j % 5 == 0))
-    for j in range(300 if q else 3000):
+    for j in range(3000):
         add('flat')
-    for j in range(300 if q else 3000):
+    for j in range(3000):
         add('opts')
-    for j in range(400 if q else 5000):
+    for j in range(3000):
         add('cdf')
     perm = rng.permutation(len(out))
     return [out[i] for i in perm]
@@ -244,13 +256,20 @@ def form(rng, v, kind, allow_scalar=False):
 
 def inside_points(rng, a, b, n, kind, k_rand, k_edge, nodes=None):
     """Doubles in [a, b]: random, next to cell boundaries, nodes +- 1 ulp,
-    the box ends.  Returns (points, count of near-boundary requests)."""
+    the box ends.  With k_edge >= 2 (n-1) both sides of every cell boundary
+    are probed (distance 0 .. 1e-2 cells, inverted in longdouble)."""
     w = LD(b) - LD(a)
     pts = [a + (b - a) * rng.random(k_rand), np.array([a, b])]
     if n >= 2 and k_edge:
-        i = rng.integers(0, n - 1, size=k_edge)
-        delta = rng.choice([1e-2, 1e-4, 1e-6, 1e-8, 1e-10, 0.],
-            size=k_edge) * rng.choice([-1., 1.], size=k_edge)
+        if k_edge >= 2 * (n - 1):
+            # every cell boundary, one point on each side
+            i = np.repeat(np.arange(n - 1), 2)
+            sign = np.tile([-1., 1.], n - 1)
+        else:
+            i = rng.integers(0, n - 1, size=k_edge)
+            sign = rng.choice([-1., 1.], size=k_edge)
+        delta = rng.choice([1e-2, 1e-4, 1e-5, 1e-6, 1e-8, 1e-10, 0.],
+            size=len(i)) * sign
         pos = (i + 0.5 + delta).astype(LD)
         if kind == 'uni':
             x = LD(a) + pos / (n - 1) * w
@@ -474,7 +493,9 @@ def run_grid1d(case, ctx, teneva):
     nodes = np.concatenate(keep)
     heavy = n <= 4097
     xin = inside_points(rng, a, b, n, kind, 300 if heavy else 2000,
-        200 if heavy else 2000, nodes)
+        2 * (n - 1) if heavy else 8192, nodes)
+    if heavy:
+        ctx.event('grids-with-every-cell-boundary-probed')
     an, bn, nn = np.array([a]), np.array([b]), np.array([n])
     r = check_points(ctx, teneva, xin.reshape(-1, 1), an, bn, nn, kind, args,
         what)
@@ -482,10 +503,11 @@ def run_grid1d(case, ctx, teneva):
     check_outside(ctx, teneva, lo_pts.reshape(-1, 1), hi_pts.reshape(-1, 1),
         an, bn, nn, kind, args, what)
 
-    if n <= 7:
+    if len(ctx.samples) < 3:
         ctx.sample({'family': 'grid1d', 'kind': kind, 'n': n, 'a': a, 'b': b,
             'K': K, 'option_forms': [fa, fb_, fn],
-            'nodes_ind_to_poi': nodes.tolist(),
+            'nodes_ind_to_poi': nodes.tolist() if n <= 8 else
+                {'first': nodes[:4].tolist(), 'last': last},
             'roundtrip_poi_to_ind': list(range(n)) if rt_ok else 'violated',
             'points_inside': xin[:6].tolist(),
             'their_indices': None if r is None else
@@ -697,7 +719,7 @@ def run_gridnd(case, ctx, teneva):
         except Exception as ex:
             ctx.event(f'advisory-np-int64-scalar-n-raises-{type(ex).__name__}')
 
-    if d >= 2 and max(ns) <= 10:
+    if len(ctx.samples) < 3:
         ctx.sample({'family': 'gridnd', 'kind': kind, 'n': ns,
             'a': a.tolist(), 'b': b.tolist(), 'option_forms': [fa, fb_, fn],
             'multi_indices': I[:4].tolist(), 'points': X[:4].tolist(),
@@ -734,8 +756,10 @@ def scale_tol(x, a, b, kind, vc):
     an, bn = float(kind[0]), float(kind[1])
     if not np.isfinite(x * (an - bn)):
         return np.inf
+    # 2 max(|a'|,|b'|): an equally valid evaluation a' + t (b' - a') carries an
+    # absolute error u max(|a'|,|b'|) where the expanded formula is exact
     return C * U * (4 * (abs(x * (an - bn)) + abs(a * bn) + abs(b * an)) / w
-        + 3 * abs(vc)) + 1e-300
+        + 3 * abs(vc) + 2 * max(abs(an), abs(bn))) + 1e-300
 
 
 def run_scale(case, ctx, teneva):
@@ -843,7 +867,7 @@ def run_scale(case, ctx, teneva):
                 'all intermediates exact, result not bit-equal'))
     ctx.event('scale-points-inside', n_in)
     ctx.event('scale-points-clipped', n_out)
-    if d <= 2:
+    if len(ctx.samples) < 3:
         ctx.sample({'family': 'scale', 'a': a.tolist(), 'b': b.tolist(),
             'dyadic': dyadic, 'custom_limits': list(cust),
             'points': X[:4].tolist(),
@@ -894,8 +918,9 @@ def run_flat(case, ctx, teneva):
         lambda: f'grid_flat({arg!r}): shape {getattr(G, "shape", None)}, '
         f'distinct rows: {distinct}; first rows {np.asarray(G)[:6].tolist()} '
         f'expected {exp[:6].tolist()} (first index fastest)', n=n)
-    if d <= 3 and N <= 12:
-        ctx.sample({'family': 'flat', 'n': n, 'grid_flat': G.tolist()})
+    if len(ctx.samples) < 3:
+        ctx.sample({'family': 'flat', 'n': n, 'rows': N,
+            'grid_flat_first_rows': np.asarray(G)[:12].tolist()})
     if d >= 2 and len(set(n)) >= 2:
         ctx.nontrivial(['flat', n, f])
 
@@ -1038,9 +1063,9 @@ def run_opts(case, ctx, teneva):
     bad = {k: r for k, r in res.items() if r != 'ok'}
     ctx.check('reject-public', not bad, lambda: f'inconsistent option '
         f'length accepted by: {bad} (d={d}, wrong length {d2})')
-    # n of the wrong length in poi_to_ind (own monitor key: mechanism of a
-    # finding on the pinned tree - n goes through grid_prep_opt, which has no
-    # length validation, and broadcasting accepts it when d == 1)
+    # n of the wrong length in poi_to_ind (defect of the pinned tree, repaired
+    # by a fix commit: n went through grid_prep_opt, which has no length
+    # validation, and broadcasting accepted it silently when d == 1)
     pn = {
         'batch': lambda: teneva.poi_to_ind(X, al, bl, wrong_n.tolist(), kd),
         'single': lambda: teneva.poi_to_ind(X[0], al, bl, wrong_n, kd),
@@ -1056,7 +1081,7 @@ def run_opts(case, ctx, teneva):
     ctx.check('reject-public', not bad, lambda: f'poi_to_ind accepts n of '
         f'length {d2} for {d}-dimensional points without an error: '
         f'X={X.tolist()}, a={al}, b={bl}, n={wrong_n.tolist()}, kind={kd}: '
-        f'{bad}', kf=KF_N_LENGTH, d=d, n=wrong_n.tolist())
+        f'{bad}', d=d, n=wrong_n.tolist())
     ctx.sample({'family': 'opts', 'd': d, 'wrong_length': d2,
         'rejected_by_grid_prep_opts': sorted(tests),
         'poi_to_ind_with_wrong_n': res})
@@ -1108,8 +1133,8 @@ def run_cdf(case, ctx, teneva):
                     f'gives {got[i]!r}'
                 break
     ctx.check('cdf', ok, lambda: f'cdf_getter(m={m}): {msg}')
-    if m <= 6:
-        ctx.sample({'family': 'cdf', 'sample': x.tolist(),
+    if len(ctx.samples) < 3:
+        ctx.sample({'family': 'cdf', 'sample': x.tolist()[:12], 'm': m,
             'z': z[:8].tolist(), 'cdf': np.asarray(got)[:8].tolist()
             if isinstance(got, np.ndarray) else repr(got),
             'counts': cnt[:8].tolist()})
@@ -1125,4 +1150,7 @@ FAMS = {'grid1d': run_grid1d, 'gridnd': run_gridnd, 'scale': run_scale,
 
 def run_case(case, ctx):
     import teneva
-    FAMS[case['fam']](case, ctx, teneva)
+    reps = int(case.get('reps', 1))
+    for j in range(reps):
+        sub = case if reps == 1 else dict(case, seed=[case['seed'], j])
+        FAMS[case['fam']](sub, ctx, teneva)
